@@ -295,6 +295,9 @@ pub fn gen_c01(rng: &mut Rng, count: usize, thorough: bool) -> Vec<Case> {
         let dd = 1 + rng.below(4);
         out.push(apply("random-rule", rand_rule(rng, dd), rand_data(rng)));
     }
+    // the listed known finding KF1 (known_findings.json): reduce nesting its own context once per
+    // element; the value it builds is as deep as the collection is long
+    out.push(apply("known:KF1", json!({"reduce": [{"var": ""}, {"var": ""}, 0]}), Value::Array(vec![int(0); 20_000])));
     // inputs that are big, not deep: recursion must not grow with the length of a string or array
     {
         let long_path = format!("a{}", ".0".repeat(4_000));
@@ -1333,6 +1336,17 @@ pub fn gen_c13(rng: &mut Rng, count: usize, _thorough: bool) -> Vec<Case> {
     for (r, d) in regress {
         out.push(apply("regress", r, d));
     }
+    // filter keeps exactly the elements whose predicate value is truthy: every corner of the table
+    {
+        let corners: Vec<Value> = corner_values();
+        out.push(apply("corner-filter", op("filter", vec![var("xs"), var("")]), json!({"xs": corners.clone()})));
+        out.push(apply("corner-filter", op("filter", vec![var("xs"), op("!!", vec![var("")])]), json!({"xs": corners.clone()})));
+        out.push(apply("corner-filter", op("map", vec![var("xs"), op("!", vec![var("")])]), json!({"xs": corners.clone()})));
+        for v in corners.iter() {
+            out.push(apply("corner-filter", op("filter", vec![json!([1, 2]), var("v")]), json!({"v": v})));
+            out.push(apply("corner-filter", op("reduce", vec![var("xs"), op("if", vec![var("current"), op("+", vec![var("accumulator"), int(1)]), var("accumulator")]), int(0)]), json!({"xs": [v.clone(), 1, v.clone()]})));
+        }
+    }
     while out.len() < count {
         let (coll, outer) = collection(rng);
         match rng.below(3) {
@@ -1373,6 +1387,17 @@ pub fn gen_c14(rng: &mut Rng, count: usize, _thorough: bool) -> Vec<Case> {
     ];
     for (r, d) in regress {
         out.push(apply("regress", r, d));
+    }
+    // every corner of the truthiness table decides a one-element collection on its own
+    for v in corner_values() {
+        for q in ["all", "some", "none"] {
+            out.push(apply("corner-element", op(q, vec![var("xs"), var("")]), json!({"xs": [v.clone()]})));
+            out.push(apply("corner-element", op(q, vec![var("xs"), op("!!", vec![var("")])]), json!({"xs": [1, v.clone(), 1]})));
+            if !is_operation(&v) {
+                out.push(apply("corner-element", op(q, vec![Value::Array(vec![v.clone()]), var("")]), Value::Null));
+                out.push(apply("corner-result", op(q, vec![json!([1, 2]), v.clone()]), Value::Null));
+            }
+        }
     }
     for q in ["all", "some", "none"] {
         for (path, d) in [
@@ -1435,6 +1460,15 @@ pub fn gen_c15(rng: &mut Rng, count: usize, _thorough: bool) -> Vec<Case> {
     ];
     for r in regress {
         out.push(apply("regress", r, Value::Null));
+    }
+    // a haystack written in the rule is a literal: members that look like operations are members
+    for (r, d) in [
+        (json!({"in": [5, [{"var": "q"}]]}), json!({"q": 5})), (json!({"in": [{"var": "n"}, [7, {"var": "q"}]]}), json!({"n": {"var": "q"}, "q": 5})),
+        (json!({"in": [2, [1, {"in": [1, 2]}]]}), Value::Null), (json!({"in": [{"var": "n"}, [{"+": [1, 2]}, {"==": [1]}]]}), json!({"n": {"==": [1]}})),
+        (json!({"in": [3, [{"+": [1, 2]}]]}), Value::Null), (json!({"in": [{"var": "n"}, {"var": "h"}]}), json!({"n": {"var": "x"}, "h": [{"var": "x"}], "x": 1})),
+        (json!({"merge": [[{"var": "a"}], {"var": "a"}]}), json!({"a": [1]})),
+    ] {
+        out.push(apply("literal-haystack", r, d));
     }
     let vals = values();
     while out.len() < count {
